@@ -138,6 +138,8 @@ type c20Inputs struct {
 	HSPS   []byte
 	SEI    []byte
 	ADTS   []byte
+	Key    []byte // shared key
+	IVBuf  []byte // 24 bytes; an 8-byte IV is the sub-slice IVBuf[:8] (spare capacity behind it)
 }
 
 var c20Pristine c20Inputs
@@ -175,17 +177,19 @@ func c20Setup() {
 		if h, err := aac.NewADTSHeader(48000, 2, 2, 100); err == nil {
 			p.ADTS = h.Encode()
 		}
+		p.Key, _ = hexDecode(c20Key)
+		p.IVBuf, _ = hexDecode("7766554433221100a0a1a2a3a4a5a6a7b0b1b2b3b4b5b6b7")
 	})
 }
 
 func (in *c20Inputs) clone() *c20Inputs {
 	cp := func(b []byte) []byte { return append([]byte{}, b...) }
-	return &c20Inputs{cp(in.Clear), cp(in.Enc), cp(in.EncCb), cp(in.Stream), cp(in.SPS), cp(in.PPS), cp(in.Slice), cp(in.HSPS), cp(in.SEI), cp(in.ADTS)}
+	return &c20Inputs{cp(in.Clear), cp(in.Enc), cp(in.EncCb), cp(in.Stream), cp(in.SPS), cp(in.PPS), cp(in.Slice), cp(in.HSPS), cp(in.SEI), cp(in.ADTS), cp(in.Key), cp(in.IVBuf)}
 }
 
 func (in *c20Inputs) digest() string {
 	h := sha1.New()
-	for _, b := range [][]byte{in.Clear, in.Enc, in.EncCb, in.Stream, in.SPS, in.PPS, in.Slice, in.HSPS, in.SEI, in.ADTS} {
+	for _, b := range [][]byte{in.Clear, in.Enc, in.EncCb, in.Stream, in.SPS, in.PPS, in.Slice, in.HSPS, in.SEI, in.ADTS, in.Key, in.IVBuf} {
 		h.Write(b)
 		h.Write([]byte{0xff})
 	}
@@ -299,8 +303,34 @@ func c20Bodies() []c20Body {
 			err = f.Encode(wr(&out, t, fine))
 			return obs(out.Bytes(), err)
 		}},
+		{Name: "DecodeFile-Encrypt(cenc, shared key, 8-byte IV from a shared buffer)-Encode", Run: func(in *c20Inputs, t *sched.T, fine bool) string {
+			key, iv := in.Key, in.IVBuf[:8]
+			t.Point()
+			f, err := mp4.DecodeFile(rs(in.Clear, t, fine))
+			if err != nil {
+				return obs("err", err)
+			}
+			t.Point()
+			kid, _ := mp4.NewUUIDFromString("11112222333344445555666677778888")
+			ipd, err := mp4.InitProtect(f.Init, key, iv, "cenc", kid, nil)
+			if err != nil {
+				return obs("err", err)
+			}
+			for _, s := range f.Segments {
+				for _, fr := range s.Fragments {
+					t.Point()
+					if err := mp4.EncryptFragment(fr, key, iv, ipd); err != nil {
+						return obs("err", err)
+					}
+				}
+			}
+			t.Point()
+			var out bytes.Buffer
+			err = f.Encode(wr(&out, t, fine))
+			return obs(out.Bytes(), err)
+		}},
 		{Name: "DecodeFile-Decrypt-Encode", Run: func(in *c20Inputs, t *sched.T, fine bool) string {
-			key, _ := hexDecode(c20Key)
+			key := in.Key
 			t.Point()
 			f, err := mp4.DecodeFile(rs(in.Enc, t, fine))
 			if err != nil {
